@@ -64,7 +64,9 @@ def rand_el(rng, depth=0, allow_split=True):
         # fill/compute branch (it has fill and compute), which is not a streaming branch
         kinds = [x for x in kinds if x != "count"]
     if depth < 2:
-        kinds += ["seq", "frun"]
+        # (a Cache only where it is run once per flow: per block or per value it would, as
+        # documented, replay what it stored on its first run)
+        kinds += ["seq", "frun", "cache"]
         if allow_split:
             kinds += ["split", "split"]
     k = rng.choice(kinds)
@@ -95,6 +97,9 @@ def rand_el(rng, depth=0, allow_split=True):
                 [rand_el(rng, 2, False) for _ in range(rng.randint(0, 2))]]
     if k == "print":
         return ["print"]
+    if k == "cache":
+        # a Cache whose file does not exist: a streaming element (values are dumped and passed on)
+        return ["cache"]
     if k == "context":
         return ["context"]
     if k == "updctx":
@@ -127,6 +132,8 @@ def cases(tier, seed):
             rec["form"] = "seq-copy"
         elif x < 0.3:
             rec["form"] = "source-reiterable"
+        elif x < 0.4:
+            rec["form"] = "split-source"
         yield rec
     big = 400 if tier == "quick" else 3000
     for s in range(1, 6):
@@ -152,6 +159,10 @@ def build(r):
     k = r[0]
     if k == "context":
         return lena.context.Context()
+    if k == "cache":
+        import os
+        import uuid
+        return lena.flow.Cache(os.path.join(_case_dir(), uuid.uuid4().hex + ".pkl"))
     if k == "mkfn":
         return lena.output.MakeFilename(r[1])
     if k == "seq":
@@ -167,6 +178,23 @@ def build(r):
     return gen.build(r)
 
 
+_CASE_DIR = [None]
+
+
+def _case_dir():
+    import tempfile
+    if _CASE_DIR[0] is None:
+        _CASE_DIR[0] = tempfile.mkdtemp(prefix="rv_c02_cache_")
+    return _CASE_DIR[0]
+
+
+def _drop_case_dir():
+    import shutil
+    if _CASE_DIR[0] is not None:
+        shutil.rmtree(_CASE_DIR[0], ignore_errors=True)
+        _CASE_DIR[0] = None
+
+
 def ref_stream(r, el, flow):
     """Ideally lazy reference for element recipe *r* (real element *el* supplies the
     per-value behaviour), with exactly the documented look-aheads."""
@@ -174,6 +202,8 @@ def ref_stream(r, el, flow):
     k = r[0]
     if k in ("call", "var", "print", "context", "updctx", "mkfn"):
         return map(el, flow)
+    if k == "cache":
+        return map(lambda v: v, flow)
     if k == "filter":
         return filter(el._selector, flow)
     if k == "slice":
@@ -386,6 +416,18 @@ def run_case(r, obs):
     import lena.flow
     k = r["k"]
     if k == "trace":
+        try:
+            _trace_case(r, obs)
+        finally:
+            _drop_case_dir()
+        return
+    _other_case(r, obs)
+
+
+def _trace_case(r, obs):
+    import lena.core
+    import lena.flow
+    if True:
         els_r, n = r["els"], r["n"]
 
         form = r.get("form", "seq")
@@ -395,6 +437,13 @@ def run_case(r, obs):
                 # the flow given to a Source as a lazy re-iterable object (not an iterator):
                 # building the Source and calling it reads nothing
                 return lena.core.Source(ReIterable(probe), *[build(e) for e in _els])()
+            if form == "split-source":
+                # the same Source as a branch of a Split (in a Sequence, run on an empty flow):
+                # building them reads nothing, the Source's results are handed on one by one
+                src = lena.core.Source(ReIterable(probe), *[build(e) for e in _els])
+                if len(_els) % 2:
+                    return lena.core.Sequence(lena.core.Split([src])).run(iter([]))
+                return lena.core.Source(lena.core.Split([src]))()
             real, _ = build_pair(_els)
             if form == "seq-copy":
                 # a deep copy of the pipeline (what SplitIntoBins / MapBins / Vectorize run):
@@ -469,7 +518,13 @@ def run_case(r, obs):
                       "pulls-after-consumer-stopped:" + _culprit(els_r),
                       "consumer took %d results and stopped; pipeline pulled %d values in total, "
                       "the reference needs %d for those results (%s)" % (stop, total3, limit, sig))
-    elif k == "census":
+
+
+def _other_case(r, obs):
+    import lena.core
+    import lena.flow
+    k = r["k"]
+    if k == "census":
         s, form, N = r["s"], r["form"], r["N"]
         obs.nontrivial = True
         args = {"stop": (None, -s), "start_stop": (2, -s), "neg_start": (-s, None),
@@ -643,7 +698,7 @@ def _culprit(els_r):
                 for br in e[1]:
                     walk(br)
     walk(els_r)
-    order = ["split", "negslice", "count", "runif", "slice", "filter"]
+    order = ["cache", "split", "negslice", "count", "runif", "slice", "filter"]
     for o in order:
         if o in kinds:
             return o
@@ -651,3 +706,5 @@ def _culprit(els_r):
 
 
 RULE += (' Pipelines also contain FillRequest(Sequence(...), bufsize, yield_on_remainder=True) as a streaming element (no buffer during run: results one by one, block after block).')
+RULE += (' Pipelines also contain a Cache with no file yet (a pass-through that dumps), and are also '
+         'run as the tail of a Source over a lazy re-iterable that is the only branch of a Split.')
